@@ -89,7 +89,7 @@ theorem C02_issueToken (sp : SpanInner) :
 /-- one copy per parent: a multi-parent span's token is the concatenation of its recording
     parents' issued tokens, in order -/
 theorem C02_childN_token (s : Sys) (t : Nat) (v n : String) (ps : List String)
-    (hp : ∀ p ∈ ps, (assocGet s.spans p).isSome) :
+    (hp : ∀ p ∈ ps, (assocGet s.spans p).isSome) (hne : (ps.flatMap s.tokenOfVar).isEmpty = false) :
     ∃ inner, assocGet (exec s t (.childN v n ps)).1.spans v = some (some inner) ∧
       inner.token = ps.flatMap s.tokenOfVar := by
   have : (ps.any fun p => (assocGet s.spans p).isNone) = false := by
@@ -97,7 +97,19 @@ theorem C02_childN_token (s : Sys) (t : Nat) (v n : String) (ps : List String)
     intro p hp'
     have := hp p hp'
     cases h : assocGet s.spans p <;> simp_all
-  simp [exec, this, Sys.newSpan, assocGet_assocSet_same]
+  simp [exec, this, hne, Sys.newSpan, assocGet_assocSet_same]
+
+/-- a span created from no recording parent at all (every parent a no-op span, or no parent) is a
+    no-op span (defect D16, repaired: it used to be a live span with an empty token) -/
+theorem C02_childN_noop (s : Sys) (t : Nat) (v n : String) (ps : List String)
+    (hp : ∀ p ∈ ps, (assocGet s.spans p).isSome) (he : (ps.flatMap s.tokenOfVar).isEmpty = true) :
+    assocGet (exec s t (.childN v n ps)).1.spans v = some none := by
+  have : (ps.any fun p => (assocGet s.spans p).isNone) = false := by
+    simp only [List.any_eq_false]
+    intro p hp'
+    have := hp p hp'
+    cases h : assocGet s.spans p <;> simp_all
+  simp [exec, this, he, assocGet_assocSet_same]
 
 /-- inside a scope the parent is the innermost open local span, else the scope's span -/
 theorem C02_currentToken_parent (l : SpanLine) (tok : Token) (h : l.token = some tok) :
